@@ -192,7 +192,7 @@ pub fn gen_cases(mode: &str, tier: &str, seed: u64, out: &str) {
                     let sp = *rng.pick(&symprecs);
                     let lvl = rng.range(0, 2) as u32;
                     let c = redescribe(&base, &mut rng, lvl, Some(*m));
-                    emit(&mut w, format!("h{}-s{}", h, i), &c, sp, AngleTolerance::Default, *rng.pick(&settings));
+                    emit(&mut w, format!("h{}k{}-s{}", h, k, i), &c, sp, AngleTolerance::Default, *rng.pick(&settings));
                 }
             }
         }
@@ -207,11 +207,15 @@ pub fn gen_cases(mode: &str, tier: &str, seed: u64, out: &str) {
                 let lvl = rng.range(0, 2) as u32;
                 let c = redescribe(&base, &mut rng, lvl, None);
                 let st = *rng.pick(&settings);
-                emit(&mut w, format!("h{}-clean", h), &c, sp, at, st);
+                emit(&mut w, format!("h{}k{}-clean", h, k), &c, sp, at, st);
                 for r in 0..(if thorough { 4 } else { 2 }) {
                     let nz = c.noise(&mut rng, 0.05 * sp);
-                    emit(&mut w, format!("h{}-noisy{}", h, r), &nz, sp, at, st);
+                    emit(&mut w, format!("h{}k{}-noisy{}", h, k, r), &nz, sp, at, st);
                 }
+                // uniform scaling of all lengths together with symprec (angle tolerance unchanged)
+                let f = *rng.pick(&[1e-2, 0.1, 0.5, 3.0, 10.0, 1e3]);
+                let sc = c.scale(f);
+                emit(&mut w, format!("h{}k{}-scaled", h, k), &sc, sp * f, at, st);
             }
         }
         // requested Hall setting (C10): matching type, own and re-described
@@ -223,6 +227,27 @@ pub fn gen_cases(mode: &str, tier: &str, seed: u64, out: &str) {
                 if thorough || h % 3 == 0 {
                     let c = redescribe(&base, &mut rng, 2, None);
                     emit(&mut w, format!("h{}-req-re", h), &c, sp, AngleTolerance::Default, Setting::HallNumber(h));
+                }
+                // non-matching requests: a Hall number of another type (neighbouring entries share the
+                // arithmetic class most often, which is the hard case), and out-of-range numbers
+                if thorough || h % 2 == 0 {
+                    let own = moyo::data::hall_symbol_entry(h).unwrap().number;
+                    let mut other = h;
+                    for d in 1..40 {
+                        let cand = if rng.chance(0.5) { h + d } else { h - d };
+                        if (1..=530).contains(&cand) && moyo::data::hall_symbol_entry(cand).unwrap().number != own {
+                            other = cand;
+                            break;
+                        }
+                    }
+                    if other != h {
+                        emit(&mut w, format!("h{}-req-other{}", h, other), &base, sp, AngleTolerance::Default, Setting::HallNumber(other));
+                    }
+                }
+                if h % 53 == 0 {
+                    for bad in [0, -5, 531, i32::MAX, i32::MIN] {
+                        emit(&mut w, format!("h{}-req-bad{}", h, bad), &base, sp, AngleTolerance::Default, Setting::HallNumber(bad));
+                    }
                 }
             }
         }
